@@ -41,6 +41,8 @@ func runC10(c *Ctx) {
 	c.R.Floor(r2, 11)
 
 	const r3 = "C10.R3 authzMessage decision and refusal"
+	// the exemption of local sessions is wired to the option that is documented for it, and to nothing else
+	c.Fields(r3, "router.newRealm", "realm literal", "router.realm", nil, map[string]string{"localAuthz": `^%config\.RequireLocalAuthz$`, "authorizer": `^%config\.Authorizer$`}, 1)
 	authz := `call:invoke:router\.Authorizer\.Authorize\[%r\.authorizer\]\(new\(wamp\.Session\), %msg\)`
 	c.Guard(r3, az, "return true", `^return:true$`, 2,
 		clause("authorized or local", T(`^`+authz+`#0$`), T(`^call:invoke:wamp\.Peer\.IsLocal\[%sess\.Peer\]\(\)$`)),
